@@ -58,6 +58,7 @@ Inductive jtype := JInt | JFloat | JBool | JStr | JDate | JEnum (names : list st
     are [RZ] when integral (the arrays of Engine.v) or [RQ]. *)
 Inductive raw :=
   | RZ (z : Z) | RQ (q : Q) | RS (s : string) | RD (d : date)
+  | RNF                        (* a float that is NaN, +inf or -inf *)
   | RF (exact shortest : Q).   (* a float32 whose shortest decimal text, read back as a double, is not the
                                   float32 value itself (0.1, 18518.518): the value, and float(str(x)) *)
 
@@ -568,13 +569,16 @@ Definition near (am rm : option Q) (vt : Q * Q) : bool :=
 
 (** What an element is compared by: a number (int, float, bool as 0/1: the float32 path
     of assert_near) or a text (enum name, ISO date, string: the exact paths). *)
-Inductive cmp := CNum (q : Q) | CText (s : string).
+Inductive cmp := CNum (q : Q) | CText (s : string) | CNaN.
+(* [CNaN]: a non-finite engine value; the difference with any number is NaN or infinite and
+   no comparison [diff <= margin] holds *)
 
 Definition is_numeric (ty : jtype) : bool :=
   match ty with JInt | JFloat | JBool => true | _ => false end.
 
 Definition raw_cmp (ty : jtype) (r : raw) : option cmp :=
-  if is_numeric ty then option_map CNum (raw_Q r) else option_map CText (raw_text ty r).
+  if is_numeric ty then match r with RNF => Some CNaN | _ => option_map CNum (raw_Q r) end
+  else option_map CText (raw_text ty r).
 
 Definition leaf_cmp (ty : jtype) (l : leaf) : option cmp :=
   if is_numeric ty then option_map CNum (leaf_Q l) else option_map CText (leaf_text l).
